@@ -426,6 +426,28 @@ class Project:
     def _ctor_bind(self, expr, env):
         if isinstance(expr, ast.Name) and expr.id in env:
             return env[expr.id]
+        # `a or b` / `a and b` / `x if c else y` over values known at this point (Python truthiness):
+        # a parameter bound to a constant by a subclass constructor decides the branch; a free
+        # parameter gives ('truthy', op, operands): the value then depends on the parameter's truth
+        if isinstance(expr, ast.BoolOp):
+            vals = [self._ctor_bind(v, env) for v in expr.values]
+            is_or = isinstance(expr.op, ast.Or)
+            for i, v in enumerate(vals):
+                if v[0] != "const":
+                    return ("truthy", ("or" if is_or else "and", vals[i:]))
+                last = i == len(vals) - 1
+                if last or bool(v[1]) == is_or:
+                    return v
+        if isinstance(expr, ast.IfExp):
+            c = self._ctor_bind(expr.test, env)
+            if c[0] == "const":
+                return self._ctor_bind(expr.body if c[1] else expr.orelse, env)
+            return ("truthy", ("ifexp", [c, self._ctor_bind(expr.body, env), self._ctor_bind(expr.orelse, env)]))
+        if isinstance(expr, ast.Compare) and len(expr.ops) == 1 and isinstance(expr.ops[0], (ast.Is, ast.IsNot)):
+            l, r = self._ctor_bind(expr.left, env), self._ctor_bind(expr.comparators[0], env)
+            if l[0] == "const" and r[0] == "const":
+                same = l[1] is r[1] or (l[1] is None and r[1] is None)
+                return ("const", same if isinstance(expr.ops[0], ast.Is) else not same)
         try:
             return ("const", const_eval(expr, {}))
         except AnalysisError:
